@@ -34,7 +34,10 @@ type Engine struct {
 	// Effects, if set, tells whether an in-repo function may write memory
 	// reachable from its parameters or globals (E5); used for opaque calls.
 	Effects func(fn *ssa.Function) (writes bool, known bool)
-	Err     error
+	// ErrClasses, if set, gives the sentinel classes (E4) of result idx of an
+	// in-repo call that is not inlined.
+	ErrClasses func(site *ssa.Call, idx int) []string
+	Err        error
 }
 
 func NewEngine(w *World) *Engine {
@@ -1409,6 +1412,20 @@ func (e *Engine) opaqueCall(st *State, x *ssa.Call, name string, callee *ssa.Fun
 			e.havocAll(st)
 		}
 		res = e.resultAV(st, x, fmt.Sprintf("%s#%s.%s@%d", shortName(name), x.Parent().Name(), x.Name(), st.epoch), nil)
+		if e.ErrClasses != nil {
+			rs := x.Call.Signature().Results()
+			for i := 0; i < rs.Len(); i++ {
+				if !isErrorType(rs.At(i).Type()) {
+					continue
+				}
+				cls := e.ErrClasses(x, i)
+				if rs.Len() == 1 {
+					res.Cls = cls
+				} else if res.Kind == KTuple && i < len(res.Elems) {
+					res.Elems[i].Cls = cls
+				}
+			}
+		}
 	}
 	ev.Result = res
 	st.events = append(st.events, ev)
